@@ -332,7 +332,79 @@ func genAmount(r *rand.Rand) uint64 {
 	}
 }
 
+// genSchedule: small destinations (1, 2, 3, 10, ... units) over long durations, next to a big one, with SEVERAL
+// triggers / unlocks / stops at close times: a destination's share then rounds down to zero (Last advances, Move does
+// not) and a later call pays from the older Move. Time moves forward; every op is followed by a dump.
+func genSchedule(r *rand.Rand) []string {
+	ops := []string{fmt.Sprintf("conf %d %d %d %d", minLock, minDur, maxDur, maxDests)}
+	now := int64(1700000000 + r.Intn(1000000))
+	start := int64(0)
+	if r.Intn(3) == 0 {
+		start = now + int64(r.Intn(200))
+	}
+	dur := []int64{1000, 1000, 3600, 10000, 86400, int64(minDur + r.Intn(100000))}[r.Intn(6)]
+	small := []uint64{1, 1, 2, 3, 10, 10, 5, 7, 100, 1000}
+	nd := 1 + r.Intn(3)
+	var dests []string
+	var ids []int
+	want := uint64(0)
+	for k := 0; k < nd; k++ {
+		id := 1 + r.Intn(5)
+		a := small[r.Intn(len(small))]
+		if k == nd-1 && r.Intn(2) == 0 {
+			a = uint64(1+r.Intn(5000)) * 1000 // a big neighbour that moves tokens at every trigger
+		}
+		ids = append(ids, id)
+		want += a
+		dests = append(dests, fmt.Sprintf("%d:%d", id, a))
+	}
+	value := want
+	if value < minLock {
+		value = minLock + uint64(r.Intn(3)) // the rest is the owner's excess
+	}
+	ops = append(ops, fmt.Sprintf("add 0 %d %d %d %d %d %s", value, value, now, start, dur, strings.Join(dests, " ")), "dump")
+	st := start
+	if st == 0 {
+		st = now
+	}
+	end := st + dur
+	now = st
+	n := 3 + r.Intn(10)
+	for k := 0; k < n; k++ {
+		switch r.Intn(12) {
+		case 0:
+			now = end - int64(1+r.Intn(2)) // just before expiry
+		case 1:
+			now = end + int64(r.Intn(3))
+		case 2, 3, 4:
+			now += int64(1 + r.Intn(3)) // close calls: shares round down to zero
+		case 5:
+			// stay at the same time: a second call in the same second
+		default:
+			now += 1 + r.Int63n(dur/8+2)
+		}
+		switch x := r.Intn(100); {
+		case x < 62:
+			ops = append(ops, fmt.Sprintf("trigger 0 %d", now))
+		case x < 85:
+			ops = append(ops, fmt.Sprintf("unlock %d %d", ids[r.Intn(len(ids))], now))
+		case x < 93:
+			ops = append(ops, fmt.Sprintf("stop 0 %d %d", ids[r.Intn(len(ids))], now))
+		case x < 96:
+			ops = append(ops, fmt.Sprintf("unlock 0 %d", now))
+		default:
+			ops = append(ops, fmt.Sprintf("delete 0 %d", now))
+		}
+		ops = append(ops, "dump")
+	}
+	ops = append(ops, fmt.Sprintf("trigger 0 %d", end), "dump")
+	return ops
+}
+
 func gen(r *rand.Rand, thorough bool, i int) []string {
+	if i%3 == 1 {
+		return genSchedule(r)
+	}
 	ops := []string{fmt.Sprintf("conf %d %d %d %d", minLock, minDur, maxDur, maxDests)}
 	base := int64(1700000000 + r.Intn(1000000))
 	now := base
@@ -458,8 +530,8 @@ func gen(r *rand.Rand, thorough bool, i int) []string {
 		default:
 			ops = append(ops, "dump")
 		}
-		if r.Intn(3) == 0 {
-			ops = append(ops, "dump")
+		if ops[len(ops)-1] != "dump" {
+			ops = append(ops, "dump") // the oracle judges every destination after every op
 		}
 	}
 	ops = append(ops, "dump")
@@ -526,6 +598,7 @@ func oracle(ops, outs []string) *corr.Violation {
 	var amounts map[int]*big.Int // assigned per destination id (sum over duplicates)
 	received := map[int]*big.Int{}
 	maxNow := int64(math.MinInt64)
+	okNow := int64(math.MinInt64) // the latest time of a transaction that succeeded (the state is as of that time)
 	lastNow := int64(0)
 	for i, op := range ops {
 		f := strings.Fields(op)
@@ -541,6 +614,7 @@ func oracle(ops, outs []string) *corr.Violation {
 			if out == "ok" {
 				now, _ := strconv.ParseInt(f[4], 10, 64)
 				maxNow, lastNow = now, now
+				okNow = now
 				large = false
 				for _, d := range f[7:] {
 					q := strings.Split(d, ":")
@@ -591,6 +665,9 @@ func oracle(ops, outs []string) *corr.Violation {
 			if now > maxNow {
 				maxNow = now
 			}
+			if ok && now > okNow {
+				okNow = now
+			}
 			if f[0] == "delete" && ok {
 				prev = nil
 			}
@@ -614,16 +691,35 @@ func oracle(ops, outs []string) *corr.Violation {
 					return mk("vested-exceeds-amount", fmt.Sprintf("op %d: destination %d (#%d) vested %d of %d", i, d.id, k, d.vested, d.amount))
 				}
 				need.Add(need, new(big.Int).SetUint64(d.amount-d.vested))
-				// linear schedule: vested*(end-start) <= amount*(t-start) + 3*(end-start), t = the time of the last move
-				t := d.move
+				// the linear schedule, exactly in integers: at the latest time t of a successful transaction so far (clipped to the vesting span)
+				// vested*(end-start) <= amount*(t-start). The contract computes each step with float64; that is exact (floor of
+				// left*period/full) as long as amount*(end-start) < 2^51 (Props/C16.paid_on_schedule); above that one float
+				// rounding may cross an integer, which gets its own signature, bounded by 3 units.
+				t := okNow
 				if t > p.expire {
 					t = p.expire
 				}
-				lhs := new(big.Int).Mul(new(big.Int).SetUint64(d.vested), big.NewInt(p.expire-p.start))
+				if t < p.start {
+					t = p.start
+				}
+				D := big.NewInt(p.expire - p.start)
+				lhs := new(big.Int).Mul(new(big.Int).SetUint64(d.vested), D)
 				rhs := new(big.Int).Mul(new(big.Int).SetUint64(d.amount), big.NewInt(t-p.start))
-				rhs.Add(rhs, big.NewInt(3*(p.expire-p.start)))
-				if d.amount < 1<<53 && lhs.Cmp(rhs) > 0 {
-					return mk("ahead-of-schedule", fmt.Sprintf("op %d: destination %d vested %d of %d at %d (start %d, end %d)", i, d.id, d.vested, d.amount, t, p.start, p.expire))
+				if lhs.Cmp(rhs) > 0 {
+					msg := fmt.Sprintf("op %d: destination %d has vested %d of %d after %d of %d seconds: ahead of the linear schedule (%d*%d > %d*%d)",
+						i, d.id, d.vested, d.amount, t-p.start, p.expire-p.start, d.vested, p.expire-p.start, d.amount, t-p.start)
+					exactDomain := new(big.Int).Mul(new(big.Int).SetUint64(d.amount), D).BitLen() <= 51
+					// float rounding can put a step at most a few ulps of float64(amount) above the exact floor (1 unit below 2^53)
+					ulp := int64(1)
+					if bl := new(big.Int).SetUint64(d.amount).BitLen(); bl > 53 {
+						ulp = 1 << uint(bl-53)
+					}
+					far := lhs.Cmp(new(big.Int).Add(rhs, new(big.Int).Mul(big.NewInt(3*ulp), D))) > 0
+					sig := "C16:paid-ahead-of-schedule:float-rounding"
+					if exactDomain || far {
+						sig = "C16:paid-ahead-of-schedule"
+					}
+					return &corr.Violation{Signature: sig, Message: msg, Ops: ops, Impl: outs}
 				}
 			}
 			if need.Cmp(new(big.Int).SetUint64(p.balance)) > 0 {
@@ -670,6 +766,10 @@ func main() {
 			{c, "add 0 9007199254740995 9007199254740995 1700000000 0 1000 1:9007199254740995", "dump", "trigger 0 1700001000", "dump", "delete 0 1700001001", "dump", "unlock 1 1700002000"},
 			// the same with one token of excess (before the repair the destination received more than its amount and the pool got stuck)
 			{c, "add 0 9007199254740996 9007199254740996 1700000000 0 1000 1:9007199254740995", "dump", "trigger 0 1700001000", "dump", "unlock 0 1700001001", "delete 0 1700001002", "dump"},
+			// a small destination next to a big one: zero-moving triggers, then later ones (seeded change C16-r2-1)
+			{c, "add 0 100000000 100000000 1700000000 0 1000 1:10 2:5000000", "dump", "trigger 0 1700000050", "dump", "trigger 0 1700000099", "dump", "unlock 1 1700000150", "dump",
+				"trigger 0 1700000500", "dump", "trigger 0 1700001000", "dump"},
+			{c, "add 0 100000000 100000000 1700000000 0 1000 1:1 2:1000000", "dump", "trigger 0 1700000999", "dump", "trigger 0 1700000999", "dump", "trigger 0 1700001000", "dump"},
 			{c, "dump", "trigger 0 5", "add 0 - 100000000 1700000000 0 1000 1:5", "add 0 5 100000000 1700000000 0 1000 1:5", "add 9 5 5 5 5 5", "frob"},
 		},
 		Nontrivial: func(ops, outs []string) bool {
